@@ -42,6 +42,7 @@ type vfScenario struct {
 	lossUna     uint32
 	lossNxt     uint32
 	lostSeen    uint64
+	roundTraffic int // datagrams emitted by either end in the current round
 }
 
 // deliver applies fates to a batch of datagrams travelling to dst.
@@ -120,17 +121,43 @@ func (sc *vfScenario) round() uint32 {
 	sc.checkTimeoutAdmission()
 	toB := sc.a.out
 	sc.a.out = nil
+	sc.roundTraffic = len(toB)
 	sc.deliver(toB, sc.b, &sc.delayedToB)
 	vfAssert("c04/receiver-queues-within-window", vfAnd(sc.b.k.rcv_queue.Len() <= int(sc.b.k.rcv_wnd), sc.b.k.rcv_buf.Len() <= int(sc.b.k.rcv_wnd)))
 	sc.read()
 	sc.b.k.flush(IKCP_FLUSH_FULL)
 	toA := sc.b.out
 	sc.b.out = nil
+	sc.roundTraffic += len(toA)
 	sc.deliver(toA, sc.a, &sc.delayedToA)
 	sc.checkTimeoutAdmission()
 	// acknowledgements may have triggered an immediate flush inside Input: those datagrams travel next round
 	vfAssert("c04/in-flight-within-window", sc.a.k.snd_nxt-sc.a.k.snd_una <= sc.a.k.snd_wnd)
 	return ia
+}
+
+// idleJump: when nothing is travelling (no datagram was emitted in the round just finished and
+// none is delayed) the only thing that can happen next is a retransmission timer of A firing;
+// the clock moves straight to the earliest one instead of ticking through idle flushes (the
+// back-off after k consecutive losses is 2^k * rto, far beyond any fixed number of 100 ms rounds).
+func (sc *vfScenario) idleJump(step uint32) uint32 {
+	if len(sc.delayedToA)+len(sc.delayedToB)+len(sc.a.out)+len(sc.b.out) > 0 || sc.roundTraffic > 0 {
+		return step
+	}
+	best := int32(-1)
+	for i := 0; i < sc.a.k.snd_buf.Len(); i++ {
+		seg := vfRingAt(sc.a.k.snd_buf, i)
+		if seg.acked != 0 || seg.xmit == 0 {
+			continue
+		}
+		if d := _itimediff(seg.resendts, sc.clock); best < 0 || vfConcreteBool(d < best) {
+			best = d
+		}
+	}
+	if vfConcreteBool(best > int32(step)) {
+		return uint32(best)
+	}
+	return step
 }
 
 func vfScenarioSetup(nc, resend, nodelay int, wndA, wndB int, stream bool, faults int) *vfScenario {
@@ -181,7 +208,7 @@ func vfH_C01_scenario() {
 	done := -1
 	for r := 0; r < R; r++ {
 		step := sc.round()
-		sc.clock += step
+		sc.clock += sc.idleJump(step)
 		if done < 0 && sc.a.k.WaitSnd() == 0 && len(sc.received) == len(sc.written) {
 			done = r
 			break
